@@ -563,12 +563,42 @@ def run_rawsig(case) -> CaseResult:
                        ('prepend', extra + sig),
                        ('inner-append', sstr(alg) + sstr(
                            sig[8 + len(alg):] + extra)),
+                       ('inner-prepend', sstr(alg) + sstr(
+                           extra + sig[8 + len(alg):])),
+                       ('inner-prepend-zero', sstr(alg) + sstr(
+                           b'\x00' + sig[8 + len(alg):])),
+                       ('inner-prepend-zeros', sstr(alg) + sstr(
+                           bytes(1 + case['extra'] % 7) +
+                           sig[8 + len(alg):])),
+                       ('inner-drop-first', sstr(alg) + sstr(
+                           sig[9 + len(alg):])),
                        ('alg-only', sstr(alg))):
         must_be_false(pub.verify(msg, blob), 'sig-resize-accepted',
                       '%s signature verifies after %s' % (alg, what),
                       'sig-resize:%s:%s' % (kt, what))
 
     labels.add('resize')
+
+    # 4b. an RSA signature value is an integer below the modulus, sent as
+    # exactly modulus-length bytes (RFC 3447 8.2.2 step 1, RFC 8332 3): one
+    # whose first byte happens to be zero must verify, and the same integer
+    # with that byte dropped is a different signature string
+    if kt == 'rsa':
+        lz = _leading_zero_sig(key, seed, alg)
+
+        if lz is not None:
+            lmsg, lsig = lz
+            labels.add('rsa-leading-zero-sig')
+
+            if pub.verify(lmsg, lsig) is not True:
+                raise Violation('valid-rejected', 'asyncssh rejects its own '
+                                '%s signature whose first byte is zero' %
+                                alg, 'valid-rejected:lz:' + alg)
+
+            must_be_false(pub.verify(lmsg, sstr(alg) + sstr(
+                lsig[9 + len(alg):])), 'sig-resize-accepted',
+                '%s signature with a leading zero byte verifies after that '
+                'byte is dropped' % alg, 'sig-resize:rsa:drop-leading-zero')
 
     # 5. algorithm-name swap.  For RSA the scheme is deterministic: a swap
     # to a name with the same hash yields exactly the blob signing with that
@@ -656,6 +686,33 @@ def run_rawsig(case) -> CaseResult:
         labels.add('msg-long')
 
     return CaseResult(sorted(labels), True)
+
+
+_LZ_CACHE: Dict[Tuple[int, str], Any] = {}
+
+
+def _leading_zero_sig(key, seed: int, alg: str):
+    """A (message, signature) pair of this RSA key and algorithm whose raw
+    signature starts with a zero byte (about one message in 256); searched
+    once per process and key, over a fixed message sequence."""
+
+    k = (seed, alg)
+
+    if k not in _LZ_CACHE:
+        found = None
+        off = 8 + len(alg)
+
+        for i in range(2000):
+            m = b'leading-zero-%d' % i
+            sg = key.a_priv.sign(m, alg.encode())
+
+            if sg[off] == 0:
+                found = (m, sg)
+                break
+
+        _LZ_CACHE[k] = found
+
+    return _LZ_CACHE[k]
 
 
 def rawsig_strategy(tier: str):
@@ -2695,7 +2752,8 @@ FAMILIES = [
            required={'all': ['kt:' + k for k in KTS] +
                      ['alg:' + a for a in RSA_SIG] +
                      ['alias-swap', 'msg-empty', 'msg-long', 'byte-edits',
-                      'alg-swap', 'other-key', 'other-msg', 'resize']}),
+                      'alg-swap', 'other-key', 'other-msg', 'resize',
+                      'rsa-leading-zero-sig']}),
     Family('sksig', run_sksig, strategy=sksig_strategy,
            budget={'quick': 120, 'thorough': 3000},
            required={'all': ['kt:sk-p256', 'kt:sk-ed25519', 'byte-edits',
